@@ -10,11 +10,13 @@ import (
 	"pgregory.net/rapid"
 
 	"verifharness/bgen"
+	"verifharness/fc"
 	"verifharness/h"
 	ref "verifharness/ref/bech32"
 )
 
 func TestMain(m *testing.M) {
+	h.FirstCallsChild(fc.Bech32()) // never returns in a first-call child process
 	if err := ref.SelfCheck(); err != nil {
 		fmt.Println("VERIF-INFRA reference self-check failed:", err)
 		panic(err)
@@ -309,3 +311,6 @@ func TestPairSweep(t *testing.T) {
 func FuzzGenEncode(f *testing.F) {
 	h.FuzzSub(f, h.Sub[encCase]{Prop: "C05", Name: "encode", Gen: genEncode, Check: checkEncode})
 }
+
+// which public entry point is called first in a process (and by how many goroutines at once)
+func TestFirstCalls(t *testing.T) { h.FirstCallsSub(t, "C05", fc.Bech32(), 6) }
